@@ -30,7 +30,7 @@ PROPS = {
         "uncovered": [],
     },
     "C15": {
-        "verus_units": [],
+        "verus_units": ["racelaps"],
         "level": "proof",
         "trusted_base": [A_KANI, A_BINRW],
         "assumptions": [],
